@@ -256,7 +256,7 @@ func (s *state) walk(node ast.Node) {
 }
 
 func (s *state) visitSoyFile(node *ast.SoyFileNode) {
-	s.jsln("// This file was automatically generated from ", node.Name, ".")
+	s.jsln("// This file was automatically generated from ", template.JSEscapeString(node.Name), ".")
 	s.jsln("// Please don't edit this file by hand.")
 	s.jsln("")
 	s.visitChildren(node)
